@@ -7,7 +7,6 @@ import (
 	"strings"
 
 	"github.com/lianxiangcloud/linkchain/libs/ser"
-	"github.com/lianxiangcloud/linkchain/types"
 
 	"lvharness/hx"
 )
@@ -355,7 +354,9 @@ func (P) Generate(g *hx.Gen) {
 	if r := wd.byName["Account"]; r != nil {
 		ops := header(r, "fuzz")
 		ops = append(ops, decOp(r, hx.UnHex("ed808080c786343030303030a0000000000000000000000000000000000000000000000000000000000000000080"), false, false))
-		g.Case("corpus map count 0x400000 in 46 bytes", ops, true)
+		// repaired (8c7e349): counts the list cannot hold (0x400000 allocated ~300 MB, 0x10000000000 ended the process)
+		ops = append(ops, decOp(r, hx.UnHex("f2808080cc8b3130303030303030303030a0000000000000000000000000000000000000000000000000000000000000000080"), false, false))
+		g.Case("corpus map count 0x400000 in 46 bytes, 0x10000000000 in 51 bytes", ops, true)
 		vg := &vgen{g: g, u: u, nilMap: true}
 		for i := 0; i < 6; i++ {
 			v := vg.gen(r.D, 3)
@@ -365,11 +366,22 @@ func (P) Generate(g *hx.Gen) {
 			}
 		}
 	}
-	if r := wd.byName["crypto.PubKey"]; r != nil {
-		if e := u.regBy[reflect.TypeOf(types.Vote{})]; e != nil {
+	// repaired (2f1154b): a registered prefix of a type that does not implement the interface must be an error, not a panic
+	for _, name := range []string{"crypto.PubKey", "types.Tx", "types.Evidence"} {
+		if r := wd.byName[name]; r != nil {
 			ops := header(r, "fuzz")
-			ops = append(ops, decOp(r, append(append([]byte{}, e.Disfix...), 0xC0), false, false))
-			g.Case("corpus foreign prefix", ops, true)
+			ops = append(ops, decOp(r, hx.UnHex("ed64386c21c0dec0"), false, false))
+			for _, e := range u.Reg {
+				ok := false
+				for _, k := range r.D.Impl {
+					ok = ok || k == e.Idx
+				}
+				if !ok {
+					ops = append(ops, decOp(r, append(append([]byte{}, e.Disfix...), 0xC0), false, false))
+					break
+				}
+			}
+			g.Case("corpus foreign prefix "+name, ops, true)
 		}
 	}
 	for _, name := range []string{"*Transaction", "[]*Transaction", "Receipt"} {
@@ -671,7 +683,7 @@ func mapInflate(g *hx.Gen, r *Root, u *Universe) []byte {
 	// the count is a hex-ASCII int right after a list header: replace a one-character count by a longer one where the
 	// enclosing sizes still fit is not possible in general, so build the Account-shaped input directly as well
 	if g.Rng.Intn(2) == 0 {
-		cnt := fmt.Sprintf("%x", []int64{1 << 10, 1 << 16, 3, 70000, -1, math.MaxInt64, 7}[g.Rng.Intn(7)])
+		cnt := fmt.Sprintf("%x", []int64{1 << 10, 1 << 22, 3, 70000, -1, math.MaxInt64, 1 << 40}[g.Rng.Intn(7)])
 		m := append([]byte{0x80 + byte(len(cnt))}, cnt...)
 		m = append([]byte{0xC0 + byte(len(m))}, m...)
 		// Account{Nonce, Credits, Balance, Tokens, Root, CodeHash}
